@@ -849,7 +849,7 @@ func TestVerif_C37(t *testing.T) {
 	defer func() { admin.Close() }()
 	remoteSeq := 0
 	maxAlters := vh.N(6, 10)
-	vh.Check(t, "ddl", 90, 400, func(rt *rapid.T) {
+	vh.Check(t, "ddl", 60, 250, func(rt *rapid.T) {
 		dbA := srv.NewDBName()
 		dbB := dbA + "_ind"
 		dbC := dbA + "_copy"
